@@ -12,6 +12,15 @@ def U(name, entry, enforce, **kw):
     return d
 
 
+def K(name, entry, enforce, **kw):
+    d = U(name, entry, enforce, **kw)
+    d["harness"] = "chunk_key.harness.c"
+    d["props"] = ["C13"]
+    d["trusted"] = ["E1 libc models of snprintf (\"%s\" into the 5-byte marker union) and strlen (9-byte strings) in units/chunk_key.harness.c",
+                    "hash_of_str is a pure function of the string (unit chunk.hash_of_str): its value for the one string in play is a ghost constant"]
+    return d
+
+
 def units():
     return [
         U("save_write_chunk", "h_save_write_chunk", "psf_save_write_chunk",
@@ -35,12 +44,17 @@ def units():
           loops={"hash_of_str": [{"loop_id": 0, "invariants": "0 <= k && k <= g_nul", "decreases": "g_nul - k"}]},
           drop_flags=["--signed-overflow-check"],
           note="int64 accumulation may overflow for ids longer than 9 characters (wraps on every supported target); not checked"),
+        K("store_read_chunk_str", "h_store_str", "psf_store_read_chunk_str", replace=["hash_of_str", "psf_store_read_chunk"]),
+        K("find_read_chunk_str", "h_find_str", "psf_find_read_chunk_str", replace=["hash_of_str"],
+          loops={"psf_find_read_chunk_str": [{"loop_id": 0, "assigns_locals": True,
+                 "invariants": "k <= pchk->used && ((0 <= g_idx && (unsigned) g_idx < k) ==> pchk->chunks [g_idx].hash != hash)",
+                 "decreases": "pchk->used - k"}]}),
+        K("get_chunk_iterator", "h_get_iterator", "psf_get_chunk_iterator", replace=["hash_of_str", "psf_find_read_chunk_str"]),
     ]
 
 
 NOT_DECIDED = {
-    "C13": ["lookup by identifier finds what was stored (hash_of_str is specified as safe/pure, its value is not: no "
-            "uninterpreted functions in CBMC contracts)",
+    "C13": ["identifier strings shorter than 3 characters (bytes of the 4-byte marker are left uninitialised at every key site)",
             "serialisation of the chunk table into WAV/AIFF/CAF/RF64 bytes and back (pair lemma)"],
 }
 ASSUMPTIONS = {
